@@ -538,6 +538,44 @@ static void fam_long(void)
 				TL = 3 + 2 * TL;
 				one((int)(~k & 1), (int)((pos + (int)k + 1) & 1));
 			}
+	/* very long number tokens (beyond 255 bytes): many digits after the point, or a long integer part */
+	static const int nlens[] = {200, 254, 255, 256, 257, 300, 511, 512, 513, 1100};
+	for (unsigned l = 0; l < sizeof nlens / sizeof nlens[0]; l++)
+		for (int form = 0; form < 3; form++)
+		{
+			sb_reset(&txt);
+			if (form == 0)
+			{
+				/* 0.000...0ddd e+N : value depends on every digit position being kept */
+				sb_puts(&txt, "0.");
+				for (int i = 0; i < nlens[l] - 12; i++)
+					sb_putc(&txt, '0');
+				sb_printf(&txt, "12345e%d", nlens[l] - 10);
+			}
+			else if (form == 1)
+			{
+				sb_putc(&txt, '1');
+				for (int i = 0; i < nlens[l] - 8; i++)
+					sb_putc(&txt, '0');
+				sb_printf(&txt, ".5e-%d", nlens[l] - 12);
+			}
+			else
+			{
+				sb_putc(&txt, '-');
+				for (int i = 0; i < nlens[l] - 1; i++)
+					sb_putc(&txt, (char)('1' + i % 9));
+			}
+			set_text(txt.p, txt.n);
+			one(0, 0);
+			one(1, 1);
+			/* inside an array too */
+			memmove(T + 1, T, TL);
+			T[0] = '[';
+			T[TL + 1] = ']';
+			TL += 2;
+			one(1, 0);
+			one(0, 1);
+		}
 	/* long numbers */
 	for (int digits = 17; digits <= 70; digits += (digits < 24 ? 1 : 9))
 		for (int form = 0; form < 4; form++)
